@@ -375,6 +375,8 @@ class SigmaCollection:
                     return self.ids_to_rules[UUID(i)]
                 except ValueError:  # Try name if UUID fails
                     return self.names_to_rules[i]
+            else:  # any other reference type can't identify a rule
+                raise KeyError(i)
         except IndexError:
             raise SigmaRuleNotFoundError(f"Rule at position { i } not found in rule collection")
         except KeyError:
